@@ -17,6 +17,7 @@ mod c14;
 mod c20;
 mod c12;
 mod c10;
+mod c17;
 mod c05;
 mod c18;
 
@@ -58,6 +59,7 @@ fn main() {
         "C12" => c12::cases(&mut rng, count, tier),
         "C13" => c13::cases(&mut rng, count, tier),
         "C14" => c14::cases(&mut rng, count, tier),
+        "C17" => c17::cases(&mut rng, count, tier),
         "C18" => c18::cases(&mut rng, count, tier),
         "C20" => c20::cases(&mut rng, count, tier),
         _ => {
